@@ -19,6 +19,7 @@ import (
 	"io"
 	"sync"
 	"sync/atomic"
+	"time"
 
 	"github.com/mdzio/go-logging"
 	"github.com/mdzio/go-mqtt/message"
@@ -532,6 +533,24 @@ func (svc *service) ping(onComplete OnCompleteFunc) error {
 	verifYield("ping.after-write", svc.id)
 
 	return nil
+}
+
+// flush waits until everything in the outgoing buffer has been written to the
+// connection, but not longer than d and not once the service is shutting down.
+func (svc *service) flush(d time.Duration) {
+	deadline := time.Now().Add(d)
+
+	for time.Now().Before(deadline) && !svc.isDone() {
+		svc.wmu.Lock()
+		out := svc.out
+		svc.wmu.Unlock()
+
+		if out == nil || out.Len() == 0 {
+			return
+		}
+
+		time.Sleep(time.Millisecond)
+	}
 }
 
 func (svc *service) isDone() bool {
